@@ -84,7 +84,7 @@ namespace Ax
 
 /-- FNV-1a (64 bit) of a byte string; used to compare area contents without printing them. -/
 def fnv64 (bs : List Byte) : Nat :=
-  bs.foldl (fun h b => ((h ^^^ b.toNat) * 0x100000001b3) % 18446744073709551616) 0xcbf29ce484222325
+  (bs.foldl (fun (h : UInt64) b => (h ^^^ b.toNat.toUInt64) * 0x100000001b3) 0xcbf29ce484222325).toNat
 
 def optName (n : Option String) : String :=
   match n with
@@ -142,5 +142,18 @@ def parseInstr (toks : List String) : Option Instr := do
     base := parseRegSpec (← kvGet kvs "base"), index := parseRegSpec (← kvGet kvs "index"),
     scale := scale, disp := BitVec.ofNat 64 disp, seg := parseSegSpec (← kvGet kvs "seg"),
     nearBranch := BitVec.ofNat 64 nb, op0NearBranch64 := nb64 == "1" }
+
+end Ax
+
+namespace Ax
+
+/-- deterministic filler for large areas (same generator in the harness and the native oracle) -/
+def lcgBytes (seed n : Nat) : List Byte :=
+  let rec go : Nat → UInt64 → List Byte → List Byte
+    | 0, _, acc => acc.reverse
+    | k + 1, x, acc =>
+      let x' := x * 6364136223846793005 + 1442695040888963407
+      go k x' (BitVec.ofNat 8 (x' >>> 56).toNat :: acc)
+  go n seed.toUInt64 []
 
 end Ax
